@@ -13,7 +13,7 @@ plain-git twin, then C03's content oracle on notes and blame; Model/JournalStore
 working_logs/<HEAD>/blobs damaged after an agent checkpoint, a person retypes lines at the agent's positions, commit; content
 oracle on note + blame; Model/Snapshot.lean vs the real note) → journal-reader correspondence (Lean model vs a real JSON
 parser's per-line verdicts) → search when a tie broke."""
-import concurrent.futures, json, os, random, shutil, sys, time, traceback
+import concurrent.futures, json, os, random, shutil, sys, time, traceback, zlib
 
 from vlib import common as C, e2e
 from vlib.props import c06_util as U
@@ -414,7 +414,7 @@ def run_corruption(job):
             jobs = []
             for rel in sorted(files):
                 data = open(os.path.join(ai, rel), "rb").read()
-                for name, _ in corruptions(os.path.join(ai, rel), data, random.Random(seed ^ hash(rel) & 0xffff), thorough):
+                for name, _ in corruptions(os.path.join(ai, rel), data, random.Random(seed ^ zlib.crc32(rel.encode()) & 0xffff), thorough):
                     jobs.append((rel, name))
             for idx, (rel, name) in enumerate(jobs):
                 if idx % parts != part:
@@ -422,7 +422,7 @@ def run_corruption(job):
                 lab.restore("proxy")
                 p = os.path.join(ai, rel)
                 data = open(p, "rb").read()
-                cs = corruptions(p, data, random.Random(seed ^ hash(rel) & 0xffff), thorough)
+                cs = corruptions(p, data, random.Random(seed ^ zlib.crc32(rel.encode()) & 0xffff), thorough)
                 # pick the occurrence of this name for this file in order
                 occ = sum(1 for (r2, n2) in jobs[:idx] if r2 == rel and n2 == name)
                 fn = [f for n_, f in cs if n_ == name][occ]
